@@ -192,6 +192,32 @@ func (g *Gen) genArith(p *Prog, ops []string) {
 			if x.Exp < int64(decimal.MinExp) || y.Exp < int64(decimal.MinExp) {
 				x, y = g.pairForAdd(int(prec)+1, op == "sub")
 			}
+		} else if g.chance(0.06) {
+			// operands of different word lengths, aligned at the low end, whose carry ripples through every remaining
+			// all-nines word of the longer one and out of its top: x = 99…9|L (lx words), y = 10^(19·ly) − L (ly words)
+			lx := 2 + g.intn(6)
+			ly := 1 + g.intn(lx-1)
+			low := g.digitsPattern(19*ly - 1) + string("123456789"[g.intn(9)])
+			lowv := digitsToInt(low)
+			if lowv.Sign() == 0 {
+				lowv.SetInt64(3)
+			}
+			yv := new(big.Int).Sub(new(big.Int).Exp(big.NewInt(10), big.NewInt(int64(19*ly)), nil), lowv)
+			xv := digitsToInt(strings.Repeat("9", 19*(lx-ly)) + fmt.Sprintf("%0*s", 19*ly, lowv.String()))
+			e := int64(g.intn(41) - 20)
+			negx := g.intn(2) == 0
+			negy := negx != (op == "sub") // magnitudes add
+			x = intToVal(xv, e, negx, uint(g.intn(3)), g.mode())
+			y = intToVal(yv, e, negy, uint(g.intn(3)), g.mode())
+			if g.chance(0.5) {
+				x, y = y, x
+				if op == "sub" {
+					x.Neg, y.Neg = !x.Neg, !y.Neg
+				}
+			}
+			if g.chance(0.5) {
+				prec = uint(19*lx + 1 + g.intn(20)) // exact result with the new top word
+			}
 		} else if g.chance(0.12) {
 			// one operand far below the other's digits needed for rounding: it can only decide through the sticky
 			// bit (or, under subtraction from a power of ten, through a borrow across a decade). Precisions next to
